@@ -712,6 +712,14 @@ def apply_literal_rewrite(text, frm, to, expect, cnt, where):
                 return False
             binds[f.text] = t.text
             return True
+        # __NUM1__ .. __NUM9__ matches any ONE numeric literal (a retuned constant keeps the rewrite applicable - and is then judged by the contract)
+        if re.fullmatch(r"__NUM\d__", f.text):
+            if t.kind != "num":
+                return False
+            if f.text in binds and binds[f.text] != t.text:
+                return False
+            binds[f.text] = t.text
+            return True
         return t.text == f.text
     hit_binds = []
     while i + len(ftoks) <= len(code):
